@@ -6,7 +6,7 @@ PROP = {
     "n": {"quick": 1500, "thorough": 16000},
     "theorems": ["run_graph_straight", "tie_transfers",
                  "addsub_imm_sim", "addsub_shift_sim", "mov_reg_sim", "mov_wide_sim",
-                 "adds_imm_sim", "adds_shift_sim", "subs_imm_sim_partial", "subs_shift_sim_partial", "subs_carry_refuted", "ldr_imm_sim", "str_imm_sim", "ldst_ord_sim", "stp_sim", "ldp_sim", "ldst_imm_sim",
+                 "adds_imm_sim", "adds_shift_sim", "subs_imm_sim_partial", "subs_shift_sim_partial", "subs_carry_refuted", "ldr_imm_sim", "str_imm_sim", "ldst_ord_sim", "stp_sim", "ldp_sim", "ldst_imm_sim", "ldpsw_sim", "ldst_reg_sim",
                  "b_sim", "bl_sim", "br_sim", "blr_sim", "ret_sim", "bcond_sim", "cb_sim", "tb_sim"],
     "tie_name": "mirror(decode word) = IL dumped by translator::aarch64 (syntactic tie) / dumped IL runs without getting stuck",
     "rule": "case i < 7034: entry (i * 7919 mod 7034) of the structured table of instruction words (add/sub immediate | shifted | extended register x W/X x "
